@@ -27,7 +27,7 @@ def _inv(pool, cap_cpu, cap_ram, overcommit, tag):
 
 
 def conserve(cap_cpu, cap_ram, c1, r1, c2, r2, c3, r3, m1, m2, m3,
-             d1a, d1b, d2a, d3a, t2, sus_at, overcommit, K, want=""):
+             d1a, d1b, d2a, d3a, t2, sus_at, overcommit, K, scale=1, want=""):
     """Three jobs.  Job 1 (2 ops, chain) is assigned at tick 0; jobs 2 and 3 (1 op
     each) are assigned together in one batch at tick t2.  A Suspend for job 1's
     container is sent at tick sus_at (-1: never), whether or not that is legal.
@@ -35,6 +35,9 @@ def conserve(cap_cpu, cap_ram, c1, r1, c2, r2, c3, r3, m1, m2, m3,
     pool untouched."""
     reset_globals()
     seen = set()
+    if scale != 1:
+        # RAM sizes in units of `scale` GB (a power of two: every sum below is exact in binary64)
+        cap_ram, r1, r2, r3 = cap_ram * scale, r1 * scale, r2 * scale, r3 * scale
     pool = ResourcePool(pool_id=0, cpu_pool=cap_cpu, ram_pool=cap_ram, ticks_per_second=1,
                         multi_operator_containers=True, allow_memory_overcommit=overcommit)
     p1, ops1 = mk_pipeline("p1", 3, 2, [True], [[seg_ticks(d1a, m1)], [seg_ticks(d1b, m1)]])
